@@ -155,6 +155,15 @@ func genC12(seed uint64, run int, tier string) Scenario {
 				op.Events = append(op.Events, ev)
 				if e == early {
 					op.EarlyAt = e + 1
+					// the caller's list goes on, but the device never gets that far: none of the
+					// remaining inputs may be typed (they would land at the command prompt)
+					for e++; e < n; e++ {
+						rest := EventSpec{Input: g.cmd(pick(r, "answer", "yes", "confirm")), Hidden: r.IntN(3) == 0}
+						if e < n-1 {
+							rest.Response = regexp.QuoteMeta(fmt.Sprintf("Q%d never?", 900+e))
+						}
+						op.Events = append(op.Events, rest)
+					}
 
 					break
 				}
@@ -197,7 +206,16 @@ func runC12(env *Env, s Scenario) {
 		env.Fault("peer-escalation-"+x[:strings.Index(x, ":")], 1)
 	}
 	if sc.Prop == "C11" {
-		checkSecrets(env, sr, []string{sc.Secondary})
+		secrets := []string{sc.Secondary}
+		if sc.PlatLogin != "" {
+			if sr.OpenRec.Err == nil {
+				env.Probe("platform-on-open-sequence-completed")
+			} else {
+				env.Probe("platform-on-open-sequence-failed:" + ErrClass(sr.OpenRec.Err))
+			}
+			secrets = append(secrets, sc.PlatLogin)
+		}
+		checkSecrets(env, sr, secrets)
 	}
 	if out.Hang {
 		env.Fail("hang", hangSite(sr), "workload did not finish\n%s", out.HangDump)
